@@ -183,7 +183,7 @@ static size_t vsosc_null(const char        *address,
                          const char        *arguments,
                          const rtosc_arg_t *args)
 {
-    unsigned pos = 0;
+    size_t pos = 0; //(the sum can exceed 32 bits: blobs need no data)
     pos += strlen(address);
     pos += 4-pos%4;//get 32 bit alignment
     pos += 1+strlen(arguments);
@@ -226,7 +226,7 @@ static size_t vsosc_null(const char        *address,
                 break;
             case 'b':
                 i = args[arg_pos++].b.len;
-                pos += 4 + i;
+                pos += 4 + (size_t)(uint32_t)i;
                 if(pos%4)
                     pos += 4-pos%4;
                 --toparse;
@@ -346,7 +346,7 @@ size_t rtosc_amessage(char              *buffer,
 
     memset(buffer, 0, total_len);
 
-    unsigned pos = 0;
+    size_t pos = 0;
     while(*address)
         buffer[pos++] = *address++;
 
@@ -429,7 +429,7 @@ size_t rtosc_amessage(char              *buffer,
                         buffer[pos++] = *u++;
                 }
                 else
-                    pos += i;
+                    pos += (uint32_t)i;
                 if(pos%4)
                     pos += 4-pos%4;
                 --toparse;
